@@ -10,6 +10,8 @@ Decided (necessary structural conditions of the per-slot ledger discipline):
   R01.3  every write that can lower / overwrite the slot total outside book depends on what this task
          had booked (the per-task record)
   R01.4  the start-offset write in bookResource is raise-only (guarded by ledger < offset)
+  R01.6  the reported portion of a task inside its final slot is placed by the slot ledger (own per-task record),
+         in the forward and in the backward branch (rule shared with C06 R06.1)
   R01.5  a slot owned by another task is offered again only if part of it was released (remaining < slot)
 Not decided: the arithmetic fact sum <= slot length for float seconds.
 """
@@ -47,6 +49,85 @@ def _signed_terms(e, sign=1):
     if isinstance(e, ast.BinOp) and isinstance(e.op, ast.Sub):
         return _signed_terms(e.left, sign) + _signed_terms(e.right, -sign)
     return [(sign, e)]
+
+
+def partial_reoffer_rule(ctx: Ctx, rid: str):
+    """available(): an occupied slot is offered again only when part of it was released (shared by C01 / C02)."""
+    avail = ctx.repo.func("ResourceScenario.available")
+    rem_names = {t.id for n in own_nodes(avail) if isinstance(n, ast.Assign) and isinstance(n.value, ast.Call)
+                 and (dotted(n.value.func) or "").endswith("getAvailableSecondsInSlot") for t in n.targets if isinstance(t, ast.Name)}
+    # ---------------------------------------------------------------- R01.5 (partial-slot re-offer)
+    # a slot whose scoreboard entry is a task (not None) may be offered only when remaining < slot length
+    for n in own_nodes(avail):
+        if isinstance(n, ast.If):
+            t = norm(n.test)
+            if "scoreboard" in t and "is not None" in t:
+                chain = [n]
+                cur = n
+                while cur.orelse and len(cur.orelse) == 1 and isinstance(cur.orelse[0], ast.If):
+                    cur = cur.orelse[0]
+                    chain.append(cur)
+                # exactly: (owned and remaining < granularity) -> pass ; owned -> return False
+                passes = [c for c in chain if all(isinstance(s, ast.Pass) for s in c.body)]
+                denies = [c for c in chain if any(isinstance(s, ast.Return) and isinstance(s.value, ast.Constant) and s.value.value is False for s in c.body)]
+                ok = bool(denies)
+                for c in passes:
+                    tab = None
+                    for part in (c.test.values if isinstance(c.test, ast.BoolOp) and isinstance(c.test.op, ast.And) else [c.test]):
+                        if isinstance(part, ast.Compare):
+                            tab = order_table(part, lambda x: isinstance(x, ast.Name) and x.id in rem_names,
+                                              lambda x: "scheduleGranularity" in norm(x))
+                    if tab != {"<": True, "=": False, ">": False}:
+                        ok = False
+                ctx.ob(rid, f"{avail.qual}: occupied slot re-offered only after a partial release", (avail, n), ok,
+                       "occupied slot passes only when remaining < slot length, otherwise it is refused" if ok else
+                       "a slot owned by another task can be offered although nothing was released from it",
+                       key=key_of(rid, avail, None, "owned-slot"))
+                break
+    else:
+        raise AnchorMissing("available(): test of the scoreboard owner not found")
+
+
+
+def raise_only_write(fn, node, val) -> bool:
+    """The ledger write at cfg node is guarded exactly by `<ledger read> < <written value>`."""
+    ffacts = facts_of(fn)
+    res = local_resolver(fn.node)
+
+    def is_led(x):
+        if isinstance(x, ast.Name):
+            return any(isinstance(v, ast.Call) and "slotSecondsUsed" in norm(v) for v in res(x))
+        return "slotSecondsUsed" in norm(x)
+    for cl in ffacts.at(node):
+        if len(cl) != 1:
+            continue
+        (t, p), = tuple(cl)
+        e = lit_compare(t)
+        if isinstance(e, ast.Compare):
+            tab = order_table(e if p else ast.UnaryOp(op=ast.Not(), operand=e), is_led, lambda x: norm(x) == norm(val))
+            if tab == {"<": True, "=": False, ">": False}:
+                return True
+    return False
+
+
+def offset_reservation_rule(ctx: Ctx, rid: str):
+    """bookResource reserves the predecessor's part of the start slot whenever less than the offset is used."""
+    fn = ctx.repo.func("TaskScenario.bookResource")
+    n = 0
+    for atoms, node, tgt in heap_writes(ctx, fn, "slotSecondsUsed"):
+        val = node.ast.value if isinstance(node.ast, (ast.Assign, ast.AugAssign)) else None
+        if val is None or "field:slotStartOffset" not in data(atoms):
+            continue
+        n += 1
+        ok = raise_only_write(fn, node, val)
+        ctx.ob(rid, f"{fn.qual}: {norm(node.ast)[:70]}", (fn, node.ast), ok,
+               "the start-offset part of the slot is reserved exactly when less than the offset is in use" if ok else
+               "the reservation of the predecessor's part of the start slot is not guarded by exactly `used < offset`: "
+               "either it can lower the total or it is skipped while less than the offset is reserved, and the task's "
+               "reported start (slot time + offset) no longer frames what was booked",
+               key=key_of(rid, fn, node.ast, "offset-reservation"))
+    if not n:
+        raise AnchorMissing("bookResource: start-offset reservation write not found")
 
 
 def run(ctx: Ctx):
@@ -172,35 +253,7 @@ def run(ctx: Ctx):
                "available() can answer True without having established that seconds remain in the slot",
                key=key_of("R01.2", avail, None, "remaining>0"))
     # ---------------------------------------------------------------- R01.5 (partial-slot re-offer)
-    # a slot whose scoreboard entry is a task (not None) may be offered only when remaining < slot length
-    for n in own_nodes(avail):
-        if isinstance(n, ast.If):
-            t = norm(n.test)
-            if "scoreboard" in t and "is not None" in t:
-                chain = [n]
-                cur = n
-                while cur.orelse and len(cur.orelse) == 1 and isinstance(cur.orelse[0], ast.If):
-                    cur = cur.orelse[0]
-                    chain.append(cur)
-                # exactly: (owned and remaining < granularity) -> pass ; owned -> return False
-                passes = [c for c in chain if all(isinstance(s, ast.Pass) for s in c.body)]
-                denies = [c for c in chain if any(isinstance(s, ast.Return) and isinstance(s.value, ast.Constant) and s.value.value is False for s in c.body)]
-                ok = bool(denies)
-                for c in passes:
-                    tab = None
-                    for part in (c.test.values if isinstance(c.test, ast.BoolOp) and isinstance(c.test.op, ast.And) else [c.test]):
-                        if isinstance(part, ast.Compare):
-                            tab = order_table(part, lambda x: isinstance(x, ast.Name) and x.id in rem_names,
-                                              lambda x: "scheduleGranularity" in norm(x))
-                    if tab != {"<": True, "=": False, ">": False}:
-                        ok = False
-                ctx.ob("R01.5", f"{avail.qual}: occupied slot re-offered only after a partial release", (avail, n), ok,
-                       "occupied slot passes only when remaining < slot length, otherwise it is refused" if ok else
-                       "a slot owned by another task can be offered although nothing was released from it",
-                       key=key_of("R01.5", avail, None, "owned-slot"))
-                break
-    else:
-        raise AnchorMissing("available(): test of the scoreboard owner not found")
+    partial_reoffer_rule(ctx, "R01.5")
 
     # ---------------------------------------------------------------- R01.3 / R01.4
     sched_roots = [repo.func("Project.schedule")]
@@ -250,13 +303,24 @@ def run(ctx: Ctx):
                         td = data(fdx.deps_of(term))
                         if not ("field:slotTaskUsage" in td or "call:book" in td):
                             ok = False
+                # ... and the write is a read-modify-write: what the other tasks hold in the slot stays in the total
+                rmw = any(sign > 0 and "field:slotSecondsUsed" in data(fdx.deps_of(term)) for sign, term in _signed_terms(val))
+                ctx.ob("R01.3", f"{fn.qual}: {norm(node.ast)[:70]} keeps the previous total", (fn, node.ast), rmw,
+                       "new total = previous total adjusted by this task's own seconds" if rmw else
+                       "the slot total is overwritten with a value that does not contain the previous total: whatever other "
+                       "tasks hold in the slot is dropped (or invented), so total != sum of the per-task records",
+                       key=key_of("R01.3", fn, node.ast, "rmw"))
             ctx.ob("R01.3", f"{fn.qual}: {norm(node.ast)[:90]}", (fn, node.ast), ok,
                    "lowering write depends on the seconds this task had booked" if ok else
                    "the slot total is rewritten from the slot length and the used fraction only; the seconds this task had "
                    "actually booked (per-task record / book() result) are not read, so when the task shared the slot "
                    "(start offset, earlier partial booking) the total no longer equals the sum of the per-task records",
                    key=key_of("R01.3", fn, node.ast))
+    # ---------------------------------------------------------------- R01.6 (shared with C06)
+    from .c06 import precise_end_rules
+    precise_end_rules(ctx, "R01.6")
+    ctx.floor("R01.6", 5)
     ctx.floor("R01.1", 5)
     ctx.floor("R01.2", 7)
-    ctx.floor("R01.3", 1)
+    ctx.floor("R01.3", 2)
     ctx.floor("R01.4", 1)
